@@ -293,6 +293,11 @@ macro_rules! impl_tree {
                     "rank_prefetch" => impl_tree!(@pf $quad, self, sym(0), pos(1)),
                     "rank_prefetch_unchecked" => impl_tree!(@pfu $quad, self, sym(0), pos(1)),
                     "iterhist" => iterhist(self.iter(), s, |x| U128Of(x)),
+                    // Debug::fmt of the tree and of its iterator must not panic (text not compared)
+                    "debug" => {
+                        let a = format!("{:?}", self);
+                        if a.is_empty() { "V:0".into() } else { "U".into() }
+                    }
                     "iter" => o_list(self.iter().map(|x| x.to_u128())),
                     "iter_ref" => o_list((&*self).into_iter().map(|x| x.to_u128())),
                     _ => "bad-op".into(),
@@ -409,6 +414,8 @@ pub enum Path {
     Iter,
     /// collect from an iterator without an exact size hint (`filter`)
     IterX,
+    /// `From<Vec<T>>` of a vector with spare capacity (3x its length)
+    FromCap,
     Default,
 }
 
@@ -437,6 +444,15 @@ where
         Path::IterX => {
             let t = v.iter().copied().filter(|_| true).collect::<W>();
             (t, 0)
+        }
+        Path::FromCap => {
+            let mut big: Vec<T> = Vec::with_capacity(3 * v.len() + 16);
+            big.extend_from_slice(&v);
+            let before2 = live_bytes();
+            let t = W::from(big);
+            // the input vector (with its spare capacity) is consumed: what remains live is the tree
+            let h2 = live_bytes() - before2 + ((3 * v.len() + 16) * std::mem::size_of::<T>()) as i64;
+            return Built { tree: Box::new(t), heap: h2 - (qwt::verif_hooks::last_craft().len() * std::mem::size_of::<(usize, u32)>()) as i64 };
         }
         Path::Default => (W::default(), 0),
     };
@@ -861,6 +877,18 @@ impl Interp {
             // `qvchain <h> …`: collected from an exact-size header of `h` values chained with a filtered rest (the
             // size hint has a positive lower bound and no upper bound); `qvnf <k> …`: collected / extended from a
             // *non-fused* source that answers None after `k` values and would go on afterwards if polled again
+            // `qvfilt …`: collected from a `filter` that really drops elements (tokens written `x<value>`): the
+            // upper bound of the size hint is larger than what the source yields
+            "qvfilt" => {
+                let all: Vec<(bool, i64)> = args.iter().map(|x| match x.strip_prefix('x') {
+                    Some(v) => (false, v.parse::<i128>().unwrap() as i64),
+                    None => (true, x.parse::<i128>().unwrap() as i64),
+                }).collect();
+                let before = live_bytes();
+                let q: QVector = all.iter().filter(|p| p.0).map(|p| p.1).collect();
+                let hp = live_bytes() - before;
+                (Slot::Qv(q, hp), ok)
+            }
             "qvchain" => {
                 let h: usize = args[0].parse().unwrap();
                 let vals: Vec<i64> = args[1..].iter().map(|x| x.parse::<i128>().unwrap() as i64).collect();
@@ -1149,6 +1177,7 @@ impl Interp {
                     "from" => Path::From,
                     "iter" => Path::Iter,
                     "iterx" => Path::IterX,
+                    "fromcap" => Path::FromCap,
                     "default" => Path::Default,
                     _ => Path::New,
                 };
@@ -1257,6 +1286,7 @@ impl Interp {
                 Slot::Rsw(x, _) => format!("{:?}", x),
                 Slot::Da0(x, _) => format!("{:?}", x),
                 Slot::Da1(x, _) => format!("{:?}", x),
+                Slot::Tree(t, _) => return t.q("debug", &[], ""),
                 _ => return "bad-op".into(),
             };
             return if txt.is_empty() { "V:0".into() } else { "U".into() };
